@@ -1,10 +1,69 @@
 /-
-  Driver ops for C15.
+  Driver ops for C15: `validate` — the fragment model's accept/reject decision for a policy against a
+  tiny schema encoding of our own (harness/vh/enc_c15.go): entity type names, actions with appliesTo
+  principal/resource lists and a context record type.  Constructs outside the fragment answer `skip`.
 -/
 import CedarGo.Driver.Ops.Core
+import CedarGo.Model.Validate.Check
 namespace CedarGo.Driver
-open Lean CedarGo
+open Lean CedarGo CedarGo.Validate
 
-def c15Ops : List (String × Handler) := []
+def decExtTyC15 (s : String) : D ExtTy :=
+  match s with
+  | "decimal" => .ok .decimal | "datetime" => .ok .datetime | "duration" => .ok .duration | "ipaddr" => .ok .ipaddr
+  | _ => .error s!"unknown-extension-type {s}"
+
+partial def decTyC15 (j : Json) : D Ty := do
+  match ← jArr j with
+  | [.str "string"] => .ok .string
+  | [.str "long"] => .ok .long
+  | [.str "bool"] => .ok .bool
+  | [.str "ext", .str x] => .ok (.ext (← decExtTyC15 x))
+  | [.str "entity", t] => .ok (.entity [← jHex t])
+  | [.str "set", e] => .ok (.set (← decTyC15 e))
+  | [.str "record", as] => do
+      let attrs ← (← jArr as).mapM fun a => do
+        match ← jArr a with
+        | [k, t, req] => .ok ((← jHex k), (← decTyC15 t), (← jBool req))
+        | _ => .error "bad attr"
+      .ok (.record attrs)
+  | _ => .error s!"bad type {j.compress}"
+
+def decSchemaC15 (j : Json) : D SchemaLite := do
+  let ets ← (← jArr (← field j "entityTypes")).mapM jHex
+  let acts ← (← jArr (← field j "actions")).mapM fun a => do
+    let uid ← decUID (← field a "uid")
+    match a.getObjVal? "appliesTo" with
+    | .error _ => .ok { uid := uid, appliesTo := none : ActionDecl }
+    | .ok apl => do
+      let ps ← (← jArr (← field apl "principals")).mapM jHex
+      let rs ← (← jArr (← field apl "resources")).mapM jHex
+      match ← decTyC15 (← field apl "context") with
+      | .record attrs => .ok { uid := uid, appliesTo := some (ps, rs, attrs) : ActionDecl }
+      | _ => .error "context must be a record type"
+  .ok { entityTypes := ets, actions := acts }
+
+def decPolicyC15 (j : Json) : D Policy := do
+  let conds ← (← jArr (← field j "conditions")).mapM fun c => do
+    match ← jArr c with
+    | [w, b] => .ok ((← jBool w), (← decExpr b))
+    | _ => .error "bad condition"
+  .ok { effect := .permit, principal := ← decScope (← field j "principal"), action := ← decScope (← field j "action"),
+        resource := ← decScope (← field j "resource"), conditions := conds }
+
+def validateC15 (dom : Bool) : Handler := fun _ j => do
+  let s ← decSchemaC15 (← field j "schema")
+  let strict ← jBool (← field j "strict")
+  let p ← decPolicyC15 (← field j "policy")
+  match validatePolicy dom s strict p with
+  | .ok true => .ok "accept"
+  | .ok false => .ok "reject"
+  | .error .unsupported => .error "outside-fragment"
+  | .error .reject => .ok "reject"
+
+/-- `validate`: the Go algorithm (`dom = false`), compared with `validate.New(..).Policy`;
+    `validate-dom`: the same restricted to the domain of `C15_typeOf_sound_partial` (reported as a share, and
+    checked for inclusion: whatever it accepts the Go validator must accept) -/
+def c15Ops : List (String × Handler) := [("validate", validateC15 false), ("validate-dom", validateC15 true)]
 
 end CedarGo.Driver
